@@ -1,4 +1,4 @@
-CONSTANTS KeyMode = "exact" MaxRow = 1048576 MaxCol = 16384
+CONSTANTS KeyMode = "exact" NBooks = 1 MaxRow = 1048576 MaxCol = 16384
 SPECIFICATION TraceSpec
 POSTCONDITION Consumed
 CHECK_DEADLOCK FALSE
